@@ -1,6 +1,9 @@
 #!/bin/bash
 # Build the Coq development from the files on disk (offline). Full .vo build.
+# The generated files coq/theories/Gen/*.v are first regenerated from /repo's working tree (as every check does).
 set -e
-cd "$(dirname "$0")/coq"
+cd "$(dirname "$0")"
+PYTHONPATH=/repo:/verif PYTHONDONTWRITEBYTECODE=1 /venv/bin/python -c "from harness import core; print(core.translate_sources())"
+cd coq
 coq_makefile -f _CoqProject -o Makefile > /dev/null
 timeout 3000 make -j16 2>&1 | tail -40
